@@ -1,10 +1,12 @@
 """C20 — DrawSet vs the Gallina model (Model/DrawSet.v), every step compared exactly."""
 import itertools
+from fractions import Fraction
 
 from harness import oracles
 
 ID = "C20"
-RULE = ("operation histories over a small integer universe (ops: add, remove, draw(i), contains, len, iter); "
+RULE = ("operation histories over a small integer universe (ops: add, remove, draw(i of n), contains, len, iter, sweep = one draw per "
+        "RNG outcome class, driven through whichever random primitive the code calls); "
         "exhaustive for short histories, seeded random for long ones; after EVERY step the implementation's "
         "output, its _edges list (exactly) and its _edge_hashmap (as sorted pairs) are compared with the model; "
         "non-trivial = history containing a successful remove; distinct by full op list")
@@ -26,7 +28,7 @@ LEVEL_NOTE = ("Trusted: Coq kernel; extraction (ExtrOcamlBasic) + OCaml driver +
               "correspondence; CPython random.choice indexing. No axioms (Print Assumptions: closed under the "
               "global context).")
 
-OPS = ["add", "remove", "draw", "contains", "len", "iter"]
+OPS = ["add", "remove", "draw", "contains", "len", "iter", "-", "sweep"]
 
 
 def _all_ops(universe, maxdraw):
@@ -56,14 +58,14 @@ def generate(rng, tier):
     obs = [o for o in allops if o[0] not in (0, 1)]
     for n in range(1, maxlen + 1):
         for seq in itertools.product(muts, repeat=n):
-            yield {"ops": [list(o) for o in seq] + [[5, 0], [4, 0]] + [list(o) for o in obs[:4]]}
+            yield {"ops": [list(o) for o in seq] + [[5, 0], [4, 0], [7, 0]] + [list(o) for o in obs[:4]]}
     nrand = 800 if tier == "quick" else 5000
     for _ in range(nrand):
         u = rng.randint(1, 8)
         n = rng.randint(1, 40)
         ops = []
         for _ in range(n):
-            k = rng.choices([0, 1, 2, 3, 4, 5], weights=[6, 5, 3, 2, 1, 1])[0]
+            k = rng.choices([0, 1, 2, 3, 4, 5, 7], weights=[6, 5, 3, 2, 1, 1, 1])[0]
             if k in (0, 1, 3):
                 ops.append([k, rng.randint(1, u)])
             elif k == 2:
@@ -91,29 +93,44 @@ def impl(case):
                 d.remove(a)
                 out = [0]
             elif k == 2:
-                s = oracles.Script([("choice", a)])
-                with oracles.scripted(s):
-                    if a >= len(d):
-                        # an index the RNG can never return: model it as 'no draw possible'
-                        if len(d) == 0:
+                # draw "index a of n" through whichever random primitive the code uses
+                n = len(d)
+                if a >= n:
+                    if n == 0:
+                        with oracles.frac_scripted(oracles.FracScript([Fraction(1, 2)])):
                             d.draw()
-                        out = [1]
-                    else:
+                    out = [1]
+                else:
+                    with oracles.frac_scripted(oracles.FracScript([Fraction(2 * a + 1, 2 * n)])):
                         out = [2, d.draw()]
+            elif k == 7:
+                # sweep: one draw per possible RNG outcome class; every member must be drawable
+                n = len(d)
+                seen = []
+                for i in range(n):
+                    with oracles.frac_scripted(oracles.FracScript([Fraction(2 * i + 1, 2 * n)])):
+                        x = d.draw()
+                    if x not in seen:
+                        seen.append(x)
+                out = [5, seen]
             elif k == 3:
                 out = [3, int(a in d)]
             elif k == 4:
                 out = [4, len(d)]
             else:
                 out = [5, list(iter(d))]
-        except (KeyError, IndexError):
+        except (KeyError, IndexError, ValueError):
             out = [1]
         trace.append([out, _state(d)])
     return trace
 
 
+def _mops(case):
+    return [[5, 0] if k == 7 else [k, a] for k, a in case["ops"]]
+
+
 def model_calls(case, impl_obs):
-    return [("c20_run", case["ops"])]
+    return [("c20_run", _mops(case))]
 
 
 def model_obs(case, raws):
@@ -135,7 +152,7 @@ def compare(case, impl_obs, model):
 def check_calls(case, impl_obs):
     if isinstance(impl_obs, list) and impl_obs and impl_obs[0] == "!exc":
         return []
-    h = [[op, o, st[0]] for op, (o, st) in zip(case["ops"], impl_obs)]
+    h = [[op, o, st[0]] for op, (o, st) in zip(_mops(case), impl_obs)]
     return [("c20_check", h)]
 
 
